@@ -2796,11 +2796,19 @@ mmx_rule_subusl_slow (OrcCompiler *p, void *user, OrcInstruction *insn)
     orc_mmx_emit_movq (p, src0, dest);
   }
 
+  /* a > b (unsigned) <=> (b>>1) - (a>>1) - (a & ~b & 1) < 0 */
   orc_mmx_emit_movq (p, src1, tmp2);
   orc_mmx_emit_psrld_imm (p, 1, tmp2);
 
   orc_mmx_emit_movq (p, dest, tmp);
   orc_mmx_emit_psrld_imm (p, 1, tmp);
+  orc_mmx_emit_psubd (p, tmp, tmp2);
+
+  /* the halves tie when a and b differ in bit 0 only */
+  orc_mmx_emit_movq (p, src1, tmp);
+  orc_mmx_emit_pandn (p, dest, tmp);
+  orc_mmx_emit_pslld_imm (p, 31, tmp);
+  orc_mmx_emit_psrld_imm (p, 31, tmp);
   orc_mmx_emit_psubd (p, tmp, tmp2);
 
   /* turn overflow bit into mask */
